@@ -267,6 +267,9 @@ def assigns_item_keys(V, ast, pkg, key):
         if name == 'allfields':
             ty = resolve_type(w, args[0][1], pkg)
             return {('f', ty, f['name']) for f in w.struct_fields(ty)}
+        if name == 'stream':
+            from .externals import rd_keys
+            return set(rd_keys())
         if name == 'ghost':
             return {kk for kk in V.h0 if kk[0] == 'ghost' and kk[1] == args[0][1]}
         if name == 'cell':
